@@ -1,5 +1,5 @@
 (* Executable model of calling a form (C10): sympde.expr.expr.{LinearForm,BilinearForm}.__call__,
-   BasicForm._update_free_variables / get_free_variables, BilinearForm.is_symmetric.
+   BasicForm._free_variables_subs / get_free_variables, BilinearForm.is_symmetric.
    Definitions only (no proofs here: the model still runs when a proof breaks).
 
    A form is a sum of integrals  (region name, integrand);  an integrand is a tree over named
@@ -204,7 +204,8 @@ Fixpoint find_name (n : string) (l : list leaf) : option leaf :=
 
 (* ------------------------------------------------------------------ __call__ *)
 Inductive parg := PVal (e : expr) | PSeq (l : list expr).     (* is_sequence(arg) ? list(arg) : [arg] *)
-Inductive err := ErrArity | ErrUnknownKw.                     (* TypeError (signature) | ValueError *)
+Inductive err := ErrArity | ErrUnknownKw | ErrCount.
+   (* TypeError of the Python signature | ValueError "not a free variable" | ValueError "expecting n functions" *)
 Inductive result := Ok (b : body) | Err (e : err).
 
 Definition as_list (p : parg) : list expr := match p with PVal e => [e] | PSeq l => l end.
@@ -216,28 +217,7 @@ Definition values_of (a : form) (pos : list parg) : option (list expr) :=
   | Linear => match pos with [p] => Some (as_list p) | _ => Some (map as_value pos) end
   end.
 
-(* _update_free_variables: one xreplace per keyword, in the order given *)
-Fixpoint update_free (fv : list leaf) (kw : list (string * expr)) (b : body) : result :=
-  match kw with
-  | [] => Ok b
-  | (n, v) :: r =>
-      match find_name n fv with
-      | None => Err ErrUnknownKw
-      | Some var => update_free fv r (map_body (subst_sim [(var, v)]) b)
-      end
-  end.
-
-Definition call (a : form) (pos : list parg) (kw : list (string * expr)) : result :=
-  match values_of a pos with
-  | None => Err ErrArity
-  | Some vals =>
-      match update_free (free_vars a) kw (f_body a) with
-      | Err e => Err e
-      | Ok b => Ok (map_body (subst_sim (combine (vars a) vals)) b)      (* dict(zip(variables, values)) *)
-      end
-  end.
-
-(* the specification: ONE simultaneous substitution for keywords and arguments together *)
+(* _free_variables_subs: {free variable named n: value}, refusing a name that is not free *)
 Fixpoint kw_dict (fv : list leaf) (kw : list (string * expr)) : option dict :=
   match kw with
   | [] => Some []
@@ -248,13 +228,57 @@ Fixpoint kw_dict (fv : list leaf) (kw : list (string * expr)) : option dict :=
       end
   end.
 
-Definition call_sim (a : form) (pos : list parg) (kw : list (string * expr)) : result :=
+(* len(trials) == len(variables[0]) and len(tests) == len(variables[1])   /   len(values) == len(variables) *)
+Definition count_ok (a : form) (pos : list parg) : bool :=
+  match f_kind a with
+  | Bilinear =>
+      match pos with
+      | [tr; te] => Nat.eqb (length (as_list tr)) (length (f_trials a)) &&
+                    Nat.eqb (length (as_list te)) (length (f_tests a))
+      | _ => true
+      end
+  | Linear =>
+      match values_of a pos with
+      | Some vals => Nat.eqb (length vals) (length (vars a))
+      | None => true
+      end
+  end.
+
+(* __call__ (after the repairs 8f04492, 8cb0139): the keyword dictionary is built first (unknown name =>
+   ValueError), the numbers of values are checked (ValueError), then subs.update(zip(variables, values)) and
+   ONE xreplace of self.expr with the merged dictionary *)
+Definition call (a : form) (pos : list parg) (kw : list (string * expr)) : result :=
   match values_of a pos with
   | None => Err ErrArity
   | Some vals =>
       match kw_dict (free_vars a) kw with
       | None => Err ErrUnknownKw
-      | Some d => Ok (map_body (subst_sim (d ++ combine (vars a) vals)%list) (f_body a))
+      | Some d =>
+          if count_ok a pos
+          then Ok (map_body (subst_sim (d ++ combine (vars a) vals)) (f_body a))
+          else Err ErrCount
+      end
+  end.
+
+(* historical: the code before the repairs - one xreplace per keyword in the order given, then a second
+   xreplace for the arguments with dict(zip(variables, values)), no check of the number of values *)
+Fixpoint update_free (fv : list leaf) (kw : list (string * expr)) (b : body) : result :=
+  match kw with
+  | [] => Ok b
+  | (n, v) :: r =>
+      match find_name n fv with
+      | None => Err ErrUnknownKw
+      | Some var => update_free fv r (map_body (subst_sim [(var, v)]) b)
+      end
+  end.
+
+Definition call_before_fix (a : form) (pos : list parg) (kw : list (string * expr)) : result :=
+  match values_of a pos with
+  | None => Err ErrArity
+  | Some vals =>
+      match update_free (free_vars a) kw (f_body a) with
+      | Err e => Err e
+      | Ok b => Ok (map_body (subst_sim (combine (vars a) vals)) b)
       end
   end.
 
@@ -275,6 +299,7 @@ Definition result_eqb (r s : result) : bool :=
   | Ok x, Ok y => struct_eq x y
   | Err ErrArity, Err ErrArity => true
   | Err ErrUnknownKw, Err ErrUnknownKw => true
+  | Err ErrCount, Err ErrCount => true
   | _, _ => false
   end.
 
